@@ -33,7 +33,7 @@ REQUIRED = ["contract:Assertion.set_p_values", "contract:Audit.summarize_status"
             "test_objects_hold_another_bound_before_call", "tests_configured_with_random_order_false",
             "mixed_audit_polling_contest_among_comparison_contests", "status_asked_for_copied_contests_with_other_limits",
             "reset_from_a_state_with_p_values_but_empty_histories",
-            "status_asked_with_a_limit_within_one_ulp_of_the_measured_risk"]
+            "status_asked_with_a_limit_within_one_ulp_of_the_measured_risk", "sampled_cards_with_the_contest_outside_its_own_sample_seen"]
 ASSUMPTIONS = ["samples have at least one observation per assertion", "summarize_status prints: stdout is swallowed, not parsed"]
 N_CASES = {"quick": 9600, "thorough": 80000}
 
@@ -60,6 +60,17 @@ def post_set_p(rec, result, a, k, old):
             clone, proved_before = old[(c, n)]
             d, u = asn.mvrs_to_data(mvr, cvr)
             clone.u = u
+            if con.audit_type != "POLLING" and con.use_style and cvr is not None:
+                # "that assertion's data": the cards of the contest's own sample, decided on the sample numbers as they
+                # are (256-bit integers), counted here independently of the method that prepared the data
+                own = sum(1 for cv in cvr if cv.has_contest(c) and cv.sample_num <= con.sample_threshold)
+                rec.count("data_sizes_compared_with_the_contests_own_sample")
+                if own < sum(1 for cv in cvr if cv.has_contest(c)):
+                    rec.count("sampled_cards_with_the_contest_outside_its_own_sample_seen")
+                if own != len(d):
+                    rec.violation("c09.pvalues", "data_is_not_the_contests_own_sample",
+                                  {"contest": c, "assertion": n, "data_size": len(d), "own_sample": own}, case)
+                    return
             with np.errstate(all="ignore"):
                 try:
                     p, h = clone.test(d)
